@@ -5,9 +5,10 @@ import Cpppo.Model.Tnet
 Values are written as prefix tokens: `i<int>` `f<hex>` `b0|b1` `n` `y<hex>` `t<cp.cp...>` (`t-` empty)
 `L<n>` followed by n values, `D<n>` followed by n times `k<cp.cp...>` value.
 
-    tn.rt <tailhex> <value tokens>    ->  reject | not-wf | <dumphex> reject | <dumphex> <value tokens> / <resthex>
-    tn.parse <hex>                    ->  reject | <value tokens> / <resthex>
-    tn.stream <hex,hex,...>           ->  {<value tokens>@<sent> }(end@<sent> | reject)
+    tn.rt <enc> <tailhex> <value tokens>  (enc: utf8|latin1|ascii|utf16)
+                                      ->  reject | not-wf | <dumphex> reject | <dumphex> <value tokens> / <resthex>
+    tn.parse <enc> <hex>              ->  reject | <value tokens> / <resthex>
+    tn.stream <ignorehex> <hex,hex,...> ->  {<value tokens>@<sent> }(end@<sent> | reject)
 -/
 namespace Cpppo.Driver.Tnet
 open Cpppo.Wire Cpppo.Tnet
@@ -97,24 +98,34 @@ def showRun (r : Run) : String :=
     | _ => s!"end@{r.sent}"
   " ".intercalate (msgs ++ [fin])
 
+def readEnc : String → Option Enc
+  | "utf8" => some .utf8
+  | "latin1" => some .latin1
+  | "ascii" => some .ascii
+  | "utf16" => some .utf16
+  | _ => none
+
 def commands : List String := ["tn.rt", "tn.parse", "tn.stream"]
 
 def handle : List String → Option String
-  | "tn.rt" :: tail :: toks => do
+  | "tn.rt" :: enc :: tail :: toks => do
+    let e ← readEnc enc
     let tail ← bytesOfHex tail
     let v ← readV toks
-    match dump? v with
+    match dump? e v with
     | none => pure "reject"
     | some bs =>
       -- a value the code serialises must satisfy the theorems' hypothesis (else the case is reported)
-      if !(wf v) then pure "not-wf" else
-      pure (hexOfBytes bs ++ " " ++ showParse (parse (bs ++ tail)))
-  | ["tn.parse", hex] => do
+      if !(wf e v) then pure "not-wf" else
+      pure (hexOfBytes bs ++ " " ++ showParse (parse e (bs ++ tail)))
+  | ["tn.parse", enc, hex] => do
+    let e ← readEnc enc
     let bs ← bytesOfHex hex
-    pure (showParse (parse bs))
-  | ["tn.stream", chunks] => do
+    pure (showParse (parse e bs))
+  | ["tn.stream", ign, chunks] => do
+    let ign ← bytesOfHex ign
     let cs ← (splitNonEmpty chunks ',').mapM bytesOfHex
-    pure (showRun (feedChunks {} cs))
+    pure (showRun (feedChunks ign {} cs))
   | _ => none
 
 end Cpppo.Driver.Tnet
